@@ -251,15 +251,18 @@ impl PoolWorld {
             P_SWAP_DIRECT => {
                 let offer = Asset { info: self.assets[0].clone(), amount: Uint128::new(x) };
                 let funds = vec![coin(x, DENOMS[0])];
+                // odd amounts direct the proceeds to the pool's fee collector (a receiver the pool knows about)
+                let to = if x % 2 == 1 { Some(COLLECTOR.to_string()) } else { None };
                 if self.kind.is_pair() {
-                    self.app.execute_contract(Addr::unchecked(BOB), pool, &pair::ExecuteMsg::Swap { offer_asset: offer, belief_price: None, max_spread: spread, to: None }, &funds)
+                    self.app.execute_contract(Addr::unchecked(BOB), pool, &pair::ExecuteMsg::Swap { offer_asset: offer, belief_price: None, max_spread: spread, to }, &funds)
                 } else {
-                    self.app.execute_contract(Addr::unchecked(BOB), pool, &trio::ExecuteMsg::Swap { offer_asset: offer, ask_asset: self.assets[1].clone(), belief_price: None, max_spread: spread, to: None }, &funds)
+                    self.app.execute_contract(Addr::unchecked(BOB), pool, &trio::ExecuteMsg::Swap { offer_asset: offer, ask_asset: self.assets[1].clone(), belief_price: None, max_spread: spread, to }, &funds)
                 }
             }
             P_SWAP_HOOK => {
-                let msg = if self.kind.is_pair() { to_json_binary(&pair::Cw20HookMsg::Swap { belief_price: None, max_spread: spread, to: None })? }
-                          else { to_json_binary(&trio::Cw20HookMsg::Swap { ask_asset: self.assets[0].clone(), belief_price: None, max_spread: spread, to: None })? };
+                let to = if x % 2 == 1 { Some(COLLECTOR.to_string()) } else { None };
+                let msg = if self.kind.is_pair() { to_json_binary(&pair::Cw20HookMsg::Swap { belief_price: None, max_spread: spread, to })? }
+                          else { to_json_binary(&trio::Cw20HookMsg::Swap { ask_asset: self.assets[0].clone(), belief_price: None, max_spread: spread, to })? };
                 self.app.execute_contract(Addr::unchecked(BOB), self.tok.clone(), &Cw20ExecuteMsg::Send { contract: pool.to_string(), amount: Uint128::new(x), msg }, &[])
             }
             P_SWAP_ROUTER => {
